@@ -1,6 +1,7 @@
 import Driver.Common
 import IoraModel.Model.HttpRetry
 import IoraModel.Model.HttpLease
+import IoraModel.Model.HttpClientLife
 /-! Line-protocol driver of the C17 model (`iora_model httpretry`).  Same operation lines as `harness/c17_httpretry.cpp`;
 the part of a script token after `@` (concrete bytes/offsets for the scripted server) is ignored here. -/
 namespace Iora.Driver.HttpRetry
@@ -10,6 +11,7 @@ structure St where
   cfg : Cfg := {}
   client : Client := {}
   tmo : Timeouts := {}
+  closing : Bool := false      -- `_closing`: set by the `cleanup` op, cleared by `reset` (a new client)
 
 def strOfBytes (bs : Bytes) : String := String.ofList (bs.map fun b => Char.ofNat b.toNat)
 
@@ -158,13 +160,44 @@ def showTimedOut (st : St) (rq : Request) (n : Nat) : String :=
   let l := go 0 n st.client []
   if l.isEmpty then "-" else ",".intercalate l
 
+/-- per attempt: `0` = the receive loop never called receiveSync (`AttemptLog.receives = 0`), `+` = it did -/
+def showRz (log : List AttemptLog) : String :=
+  if log.isEmpty then "-" else ",".intercalate (log.map fun lg => if lg.receives = 0 then "0" else "+")
+
 def mkRequest (m : String) (b : Int) (uk : Nat) (as : List Attempt) : Request :=
   let https := uk = 2
-  { method := m, urlOk := uk ≠ 9, host := if uk = 1 then 1 else 0, retries := b,
+  -- url kinds: 0 = 127.0.0.1:P, 1 = localhost:P, 2 = https, 3 = 127.0.0.1:(P + 65536) (parseUrl wraps it to P: the SAME key as kind 0),
+  -- 5 = 127.0.0.1:P2 (a second port: another key), 9 = no URL at all; kind 4 (port beyond `int`) never gets here
+  { method := m, urlOk := uk ≠ 9, host := if uk = 1 then 1 else if uk = 5 then 2 else 0, retries := b,
     script := fun i => { scriptFn as i with https := https } }
 
+def kindsOf (evs : List Ev) : String :=
+  let l := evs.filterMap fun e => match e with
+    | .connect _ _ => some "c"
+    | .send _ => some "s"
+    | .close _ => some "x"
+    | _ => none
+  if l.isEmpty then "-" else ",".intercalate l
+
+def dashes (n : Nat) : String := if n = 0 then "-" else ",".intercalate (List.replicate n "-")
+
+/-- three callers on one client (seed C17-d): T1 holds host 0 behind a silent peer, T2 asks for host 0 and waits for the lease
+(`leaseAcquireTimeout = lease`), T3 completes `n` exchanges with host 1, one every `step` ms, each release waking T2 -/
+def runContend (lease step n : Nat) : String :=
+  let cfg : Cfg := {}
+  let out := acquireLeaseTimed lease false false (foreignWakes step n 0)
+  let r1 := performRequest cfg {} { method := "POST", script := fun _ => { recvs := [.more, .timeout] } }
+  let r2 := performRequest cfg {} { method := "GET", script := fun _ => { lease := out.ans, recvs := [.complete {}] } }
+  let rq3 : Request := { method := "GET", host := 1, script := fun _ => { recvs := [.complete {}] } }
+  let (c3, ev3, rs3) := runRequests cfg {} (List.replicate n rq3)
+  let ok3 := (rs3.filter fun r => match r.result with | .ok _ => true | _ => false).length
+  let hosts := (c3.conns.map fun p => s!"h{p.1}").foldr insertSorted []
+  let cache := if hosts.isEmpty then "-" else ",".intercalate hosts
+  s!"t1={showRes r1.result}/{r1.log.length}/{kindsOf r1.evs} t2={showRes r2.result}/{r2.log.length}/{kindsOf r2.evs} round={roundOf step out.time n 0} t3={ok3}/{kindsOf ev3} cache={cache} leased={c3.leased.length}"
+
 def runRequest (st : St) (rq : Request) (fn : Option String) : St × String :=
-  let r := performRequest st.cfg st.client rq
+  let rq := if st.closing then forceClosing rq else rq
+  let r := performRequestL st.cfg { client := st.client, closing := st.closing } rq
   let fo := if r.fuelOut then " FUEL" else ""
   -- entry points that throw when the returned response is not 2xx
   let res : Except Exn RespInfo := match fn, r.result with
@@ -175,7 +208,7 @@ def runRequest (st : St) (rq : Request) (fn : Option String) : St × String :=
       else .ok ri
     | _, x => x
   ({ st with client := r.client },
-   s!"ev={showEvs r.evs} res={showRes res} att={r.log.length} tw={showTimedOut st rq r.log.length} {showCache r.client}{fo}")
+   s!"ev={showEvs r.evs} res={showRes res} att={r.log.length} tw={showTimedOut st rq r.log.length} rz={showRz r.log} {showCache r.client}{fo}")
 
 def step (st : St) : List String → St × String
   | "call" :: fn :: budget :: urlKind :: _bodyLen :: toks =>
@@ -187,6 +220,18 @@ def step (st : St) : List String → St × String
       | none => (st, "unknown-entry")
     | _, _, _ => (st, "bad-op")
   | ["srvclose", _] => (st, "ok")
+  -- a header field the caller supplies: copied into the request text, looked at by nothing on the client side
+  | ["hdr", n, _] => if n = "-" then (st, "bad-op") else match ofHex n with
+    | some _ => (st, "ok")
+    | none => (st, "bad-op")
+  | ["cleanup"] =>
+    let (lc, evs) := cleanup { client := st.client, closing := st.closing }
+    let xs := (evs.filterMap showEv).foldr insertSorted []
+    ({ st with client := lc.client, closing := lc.closing }, s!"ev={if xs.isEmpty then "-" else ",".intercalate xs} {showCache lc.client}")
+  | ["contend", lease, stp, n] =>
+    match lease.toNat?, stp.toNat?, n.toNat? with
+    | some l, some s, some n => if l = 0 ∨ s = 0 then (st, "bad-op") else (st, runContend l s n)
+    | _, _, _ => (st, "bad-op")
   | "parm" :: sched :: threads =>
     match parseNats (if sched = "-" then [] else sched.splitOn ","), parseThreads threads with
     | some sc, some rqs =>
@@ -205,7 +250,15 @@ def step (st : St) : List String → St × String
   | "req" :: m :: budget :: urlKind :: _bodyLen :: toks =>
     match ofHex m, budget.toInt?, urlKind.toNat?, parseScript toks with
     | some m, some b, some uk, some as =>
-      if toks.isEmpty then (st, "bad-op") else runRequest st (mkRequest (strOfBytes m) b uk as) none
+      if toks.isEmpty then (st, "bad-op")
+      else if uk = 4 then
+        -- a port beyond `int`: parseUrl (std::stoi) throws std::out_of_range on every attempt, before the lease
+        match parseUrlPort { port := some (Gen.HttpRetry.portParseMax + 1) } with
+        | .error e =>
+          let n := failAttempts (strOfBytes m) b e
+          (st, s!"ev=- res={showRes (.error e)} att={n} tw={dashes n} rz={if n = 0 then "-" else ",".intercalate (List.replicate n "0")} {showCache st.client}")
+        | .ok _ => (st, "model-accepts-the-port")
+      else runRequest st (mkRequest (strOfBytes m) b uk as) none
     | _, _, _, _ => (st, "bad-op")
   | ["vclock", _] => (st, "ok")
   | ["pause", _] => (st, "ok")
